@@ -145,6 +145,13 @@ def parallel_scenarios(rnd, count):
         if rnd.random() < 0.5:
             hist += [op(op="stop"), op(op="start")]
         out.append({"k": "STORE", "n": m, "bsz": rnd.choice((1, 2, 64)), "ctx": rnd.random() < 0.5, "hist": hist, "variant": "free"})
+        if i % 4 == 0:
+            # the same store, a parallel tail-side deletion without handler failures whose k-th datastore write (a worker's
+            # batch commit on the context-aware flavour) fails; the deletion is retried
+            hist2 = [op(op="append", b=list(range(1, m + 1))), op(op="sync"),
+                     op(op="delete", **{"from": 1, "to": to, "par": True, "kind": "tail"})]
+            out.append({"k": "STORE", "n": m, "bsz": rnd.choice((1, 2, 64)), "ctx": i % 8 == 0, "hist": hist2,
+                        "variant": "free+dfail:%d" % rnd.randint(1, 3)})
     return out
 
 
